@@ -21,7 +21,7 @@ M = 18
 MP = 118  # Model/CompareParams.v
 LABELS = {"Parameter name": 1, "Byte position": 2, "Bit Length": 3, "Semantic": 4, "Parameter type": 5, "Data type": 6,
           "Value": 7, "Values": 8, "Linked DOP object": 9, "DOP name": 10, "DOP unit name": 11, "DOP unit display name": 12,
-          "DOP unit object": 13, "DOP physical data type": 14, "Constant value": 15, "Default value": 16}
+          "DOP unit object": 13, "DOP physical data type": 14, "Constant value": 15, "Default value": 16, "Bit position": 17}
 
 
 class Interner:
@@ -71,7 +71,7 @@ def abs_param(p, I):
     else:
         kind = [3]
     return [I.of(p.short_name), I.of(p.parameter_type), opt(p.byte_position), opt(p.get_static_bit_length()),
-            opt(None if p.semantic is None else I.of(p.semantic)), kind]
+            opt(None if p.semantic is None else I.of(p.semantic)), kind, opt(p.bit_position)]
 
 
 def param_cases(dl_new, dl_old, tag):
@@ -154,6 +154,8 @@ def used_dops(sv):
 def x_param(p):
     sem = "" if p["semantic"] is None else f' SEMANTIC="{p["semantic"]}"'
     pos = "" if p["bytepos"] is None else f"<BYTE-POSITION>{p['bytepos']}</BYTE-POSITION>"
+    if p.get("bitpos") is not None:
+        pos += f"<BIT-POSITION>{p['bitpos']}</BIT-POSITION>"
     if p["kind"] == "coded":
         return (f'<PARAM{sem} xsi:type="CODED-CONST"><SHORT-NAME>{p["name"]}</SHORT-NAME>{pos}<CODED-VALUE>{p["value"]}</CODED-VALUE>'
                 f'<DIAG-CODED-TYPE BASE-DATA-TYPE="{BTN[p["bt"]]}" xsi:type="STANDARD-LENGTH-TYPE"><BIT-LENGTH>{p["bl"]}</BIT-LENGTH>'
@@ -212,6 +214,9 @@ def edits(rng, L):
                 if j > 0:
                     # an unspecified position (directly behind the predecessor) is not position 0
                     attrs.append(("bytepos", 0 if p["bytepos"] is None else None, "Byte position"))
+                if (p["kind"] == "coded" and p["bl"] <= 4) or p["kind"] != "coded":
+                    # (a BIT-POSITION which appears, where the object leaves room for it)
+                    attrs.append(("bitpos", 2 if p.get("bitpos") is None else None, "Bit position"))
                 if p["kind"] == "coded":
                     attrs += [("bl", 16, "Bit Length")]
                     if p["value"] < 128:
@@ -555,7 +560,7 @@ def main(argv=None):
                 ck.violation(f"edit '{label}' of parameter {exp['param']}: the changed property '{exp['prop']}' is not listed "
                              f"(listed: {r['props']})", rep)
                 continue
-            elif label in ("change-bytepos", "change-semantic", "change-bl", "change-value", "change-bt") and \
+            elif label in ("change-bytepos", "change-semantic", "change-bl", "change-value", "change-bt", "change-bitpos") and \
                     r["props"] != [exp["prop"]]:
                 # one attribute of one parameter was edited: exactly that kind of change, once (linking another data object
                 # also changes what is derived from it -- its name, its bit length -- and is not held to this)
